@@ -770,6 +770,43 @@ func runC08(r *mon.Run) {
 			tasks = append(tasks, task{sd, jmut{fmt.Sprintf("bytes #%d", k), "", b}})
 		}
 	}
+	// number lengths: every byte length 1..maxLen in some number position of a valid document (the decoders' buffer sizes and
+	// the verifier's size checks sit at particular lengths that structural mutation never produces)
+	maxLen := r.Pick(700, 1100)
+	for di, sd := range corpus {
+		if !r.Thorough() && di >= 3 {
+			break
+		}
+		root := decodeTree(sd.doc)
+		var leaves []jpath
+		walk(root, nil, func(p jpath, v any) {
+			if sv, ok := v.(string); ok && len(p) > 0 {
+				if _, e := base64.StdEncoding.DecodeString(sv); e == nil && len(sv) >= 4 {
+					leaves = append(leaves, append(jpath{}, p...))
+				}
+			}
+		})
+		if len(leaves) == 0 {
+			continue
+		}
+		for L := 1; L <= maxLen; L++ {
+			p := leaves[(L*31+di)%len(leaves)]
+			b := make([]byte, L)
+			for i := range b {
+				b[i] = byte(jr.IntN(256))
+			}
+			if L%16 != 0 { // every 16th keeps a possibly-zero leading byte
+				b[0] |= 1
+			}
+			enc := base64.StdEncoding.EncodeToString(b)
+			tasks = append(tasks, task{sd, jmut{fmt.Sprintf("length %s -> %d random bytes", p.String(), L), "", marshalTree(setAt(root, p, enc, false))}})
+			if L%3 == 0 {
+				raw := base64.RawStdEncoding.EncodeToString(b)
+				tasks = append(tasks, task{sd, jmut{fmt.Sprintf("length %s -> %d random bytes, unpadded", p.String(), L), "", marshalTree(setAt(root, p, raw, false))}})
+			}
+		}
+	}
+	c08NumberDecoder(r, jr)
 	r.Set("documents_generated", len(tasks))
 	workers := runtime.NumCPU()
 	next := make(chan int, len(tasks))
@@ -802,6 +839,36 @@ func runC08(r *mon.Run) {
 	r.FloorFam("verify-M1", 50)
 	r.FloorFam("verify-M2", 50)
 	r.FloorFam("verify-M3", 20)
+	r.FloorFam("number-decoder", 5000)
+}
+
+// c08NumberDecoder: the integer decoder on its own, for every byte length and the padding forms a sender may use.
+func c08NumberDecoder(r *mon.Run, jr *rand.Rand) {
+	for L := 0; L <= 1400; L++ {
+		b := make([]byte, L)
+		for i := range b {
+			b[i] = byte(jr.IntN(256))
+		}
+		forms := []string{base64.StdEncoding.EncodeToString(b), base64.RawStdEncoding.EncodeToString(b), base64.URLEncoding.EncodeToString(b),
+			base64.StdEncoding.EncodeToString(b) + "=", strings.TrimSuffix(base64.StdEncoding.EncodeToString(b), "=")}
+		for fi, f := range forms {
+			doc, _ := json.Marshal(f)
+			var v big.Int
+			var err error
+			pv, stack := mon.Try(func() { err = json.Unmarshal(doc, &v) })
+			r.Distinct("number-decoder", L, fi)
+			switch {
+			case pv != nil:
+				r.Eval("number-decoder", "panic")
+				r.Violation("C08/panic@"+mon.PanicSite(stack), fmt.Sprintf("decoding a number of %d bytes (form %d) panicked: %v [%s]", L, fi, pv, stack),
+					map[string]any{"entry": "json.Unmarshal(big.Int)", "document": json.RawMessage(doc)})
+			case err != nil:
+				r.Eval("number-decoder", "reject")
+			default:
+				r.Eval("number-decoder", "accept")
+			}
+		}
+	}
 }
 
 // replayC08 re-runs the deciding call of a recorded case.
